@@ -12,6 +12,7 @@ from __future__ import annotations
 
 import bundler_props as P
 import re_probes as RP
+import fault_probes as FP
 
 MANIFEST = {
     "text": "FULL for engine-admissible histories (every rewind issued with an uncleared checkpoint copy and without losing a "
@@ -41,6 +42,7 @@ extract = P.extract
 
 def run(ctx, model=True):
     res = P.run(ctx, "C05", "C05", 1100, 25000, model=model, rule=RULE)
+    FP.run_probes(ctx, res, [FP.no_document_after_stop, FP.num_events_true], ["stop-dispatch"], 12, 200)
     RP.add_to(res, ["classic-flyer", "nonrewindable-region", "noreplay-pause"])
     return res
 
@@ -53,4 +55,6 @@ def replay(ctx, data):
     r = RP.replay(data)
     if r is not None:
         return r
+    if FP.is_probe(data):
+        return FP.replay_probe(ctx, data, [FP.no_document_after_stop, FP.num_events_true])
     return P.replay(ctx, "C05", data)
